@@ -155,6 +155,7 @@ func RunC19(r *sim.Run) {
 	}}
 
 	var token int32 = 100
+	lastGen := map[string]int32{} // the value most recently generated for a name (a save may repeat it)
 	tainted := map[string]bool{}
 	var ops []*op
 	var stamp int64 = 10
@@ -170,6 +171,7 @@ func RunC19(r *sim.Run) {
 				return
 			}
 			ops = append(ops, &op{kind: "save", name: n, up: upOf[n], token: token, call: 1, ret: 2, acked: true, thread: -1})
+			lastGen[n] = token
 			r.Logf("preload %s=%d", n, token)
 		}
 	}
@@ -186,6 +188,7 @@ func RunC19(r *sim.Run) {
 
 	// programs
 	nThreads := t.Range(1, 3)
+	repeats := 0
 	type prog struct{ ops []*op }
 	progs := make([]prog, nThreads)
 	for k := range progs {
@@ -197,8 +200,15 @@ func RunC19(r *sim.Run) {
 				o.kind = "save"
 				o.name = names[t.Draw(len(names))]
 				o.up = upOf[o.name]
-				token++
-				o.token = token
+				if prev, ok := lastGen[o.name]; ok && util.GetShardID(o.up, N) == s && t.Draw(4) == 0 {
+					// a report that changes nothing: the very value saved for this name before
+					o.token = prev
+					repeats++
+				} else {
+					token++
+					o.token = token
+					lastGen[o.name] = token
+				}
 			case 1:
 				o.kind = "delete"
 				o.name = names[t.Draw(len(names))]
@@ -596,6 +606,7 @@ func RunC19(r *sim.Run) {
 	r.ProbeN("ops_acked", nAcked)
 	r.ProbeN("ops_failed", nErr)
 	r.ProbeN("ops_inflight_at_crash", nInflight)
+	r.ProbeN("saves_repeating_an_earlier_value", repeats)
 	if graceful && stopped {
 		r.Probe("graceful_stop")
 	}
